@@ -30,7 +30,7 @@ def floors(tier):
     q = tier == "quick"
     return {"enc.crlf": 20000 if q else 500000, "enc.cr": 20000 if q else 500000, "enc.mixed": 10000, "nul.twins": 10000, "tab_a.twins": 3000,
             "tab_b.twins": 150000 if q else 3000000, "tab_b.pattern.QQ": 2000, "tab_b.pattern.QL": 2000, "tab_b.pattern.LQ": 2000, "tab_b.pattern.LL": 2000,
-            "tab_b.pattern.QQQ": 500, "tab_b.with_container": 100000, "cr_nul_field_checks": 100000}
+            "tab_b.pattern.QQQ": 500, "tab_b.with_container": 100000, "cr_nul_field_checks": 100000, "tab_b.continuation_line_twins": 5000}
 
 
 def norm_allow(sd):
@@ -48,6 +48,9 @@ def norm_allow(sd):
                         c["content"] = re.sub(r"[ \t]+", " ", c["content"])
                     elif c["type"] in ("image", "text", "html_inline"):
                         c["content"] = re.sub(r"\n[ \t]+", "\n", c["content"])
+                        if c["type"] == "image" and isinstance(c["attrs"].get("alt"), str):
+                            # alt is text derived from the description at render time: the same allowance applies to it
+                            c["attrs"] = dict(c["attrs"], alt=re.sub(r"\n[ \t]+", "\n", c["attrs"]["alt"]))
                     fix(c.get("children"))
             x["children"] = [dict(c) for c in x["children"]] if x["children"] else x["children"]
             fix(x["children"])
@@ -275,6 +278,39 @@ def run(ctx):
                         ctx.nontrivial("tab_b", segs, leaf, sec)
             if idx % 997 == 0:
                 ctx.sample({"kind": "tab_b", "segments": segs, "leaf": LEAVES[idx % len(LEAVES)], "spellings": variants(segs, "x")[:4]})
+    # ---- (iii-b) on continuation lines: the second line of a nested quote has its own prefix widths and its own tab spellings ----
+    qseg = [(i, ">", b) for i in range(4) for b in range(1, 5)]
+    firsts = [(a, b) for a in qseg for b in qseg if a[0] <= 1 and a[2] <= 2 and b[0] <= 1 and b[2] <= 2 and a[2] + b[0] <= 4]
+    for f_i, fsegs in enumerate(firsts):
+        l1 = variants(fsegs, "a")[0]
+        for segs in itertools.product(qseg, repeat=2):
+            if segs[0][2] + segs[1][0] > 4:
+                continue
+            idx += 1
+            if not ctx.mine(idx):
+                continue
+            if ctx.quick and (idx // ctx.nshards) % 3:
+                continue
+            for leaf in ("b", "- z", "    c", "```"):
+                vs = variants(segs, leaf)
+                base = l1 + "\n" + vs[0] + "\n"
+                try:
+                    tb = norm_allow(stream(md.parse(base)))
+                except Exception:
+                    continue
+                for v in vs[1:]:
+                    ctx.count("evaluations")
+                    ctx.count("tab_b.twins")
+                    ctx.count("tab_b.continuation_line_twins")
+                    doc = l1 + "\n" + v + "\n"
+                    try:
+                        tv = norm_allow(stream(md.parse(doc)))
+                    except Exception:
+                        continue
+                    if tv != tb:
+                        ctx.violation("tab_b:structure-differs:continuation", f"{first_diff(tb, tv)} | spaces={base!r} tabs={doc!r} html {md.render(base)[:120]!r} vs {md.render(doc)[:120]!r}",
+                                      {"kind": "tab_b", "conf": conf, "a": base, "b": doc, "pattern": "continuation"})
+                ctx.nontrivial("tab_b2", fsegs, segs, leaf)
     ctx.info["exhaustive_part"] = ("(iii-b): all 1- and 2-segment lines over indent 0-3 x markers {>,-,1.,12)} x 1-4 blank columns and the restricted 3-segment space "
                                    "(indents <=1,<=1,0), every leaf, every space/tab spelling; quick samples leaves for 3 segments and second lines")
 
